@@ -27,6 +27,10 @@ TRUSTED = [
     'API rules stated as preconditions: avail_in <= 2^31-1 (the driver adds buffered bytes in 32 bits); no input once the stream is in its '
     'trailer/end state; after end_of_stream was given with all input consumed no further input is supplied (then the history may be dropped)',
 ]
+TRUSTED.append('reachability probes (canary rule): besides the hook canaries the harness asserts, and the runner requires to FAIL, that '
+               'isal_deflate returns after a pass on the internal buffer, after a first pass on the user chunk and after a later pass on the '
+               'user chunk (loop-step copy); the pass stub states the new next_in with __CPROVER_pointer_in_range_dfcc (same_object()/== on a '
+               'pointer that dfcc havocked can never be assumed and silently cut these paths: audit item O4)')
 BOUNDS = 'the current input chunk is a fresh object of exactly avail_in bytes at next_in (avail_in <= 2^31-1); all sizes symbolic'
 COMMON = dict(enforce='isal_deflate', entry='h_isal_deflate_mem', replace=REPL, solver='cadical', object_bits=10, timeout=2400,
               trusted=TRUSTED, bounds=BOUNDS)
